@@ -997,6 +997,8 @@ where
     let mut done = vec![false; usize::from(grm.rules_len())];
     loop {
         let mut all_done = true;
+        let mut progress = false; // was at least one rule finalised in this round?
+        let mut ls_cmplt_rule: Option<(u16, usize)> = None; // lowest completed cost of any unfinalised rule
         for i in 0..done.len() {
             if done[i] {
                 continue;
@@ -1036,14 +1038,36 @@ where
                 debug_assert!(low_cmplt >= costs[i]);
                 costs[i] = low_cmplt;
                 done[i] = true;
-            } else if let Some(ls_noncmplt) = ls_noncmplt {
-                debug_assert!(ls_noncmplt >= costs[i]);
-                costs[i] = ls_noncmplt;
+                progress = true;
+            } else {
+                if let Some(ls_noncmplt) = ls_noncmplt {
+                    debug_assert!(ls_noncmplt >= costs[i]);
+                    costs[i] = ls_noncmplt;
+                }
+                if let Some(c) = ls_cmplt
+                    && ls_cmplt_rule.is_none_or(|(l, _)| c < l)
+                {
+                    ls_cmplt_rule = Some((c, i));
+                }
             }
         }
         if all_done {
             debug_assert!(done.iter().all(|x| *x));
             break;
+        }
+        if !progress {
+            // No rule could be finalised on its own: rules on a cycle which adds no cost (e.g. `A: B |
+            // 'a'; B: A;`) wait for each other forever. The unfinalised rule with the lowest
+            // completed cost cannot be improved upon by any of the remaining rules (they all cost
+            // at least as much), so it is final. If no unfinalised rule has a completed production,
+            // the remaining rules cannot derive any sentence at all and there is nothing left to do.
+            match ls_cmplt_rule {
+                Some((c, i)) => {
+                    costs[i] = c;
+                    done[i] = true;
+                }
+                None => break,
+            }
         }
     }
     costs
